@@ -55,3 +55,10 @@ pub fn get_structure_name(declaration: &Declaration) -> Option<&str>
 		Declaration::Poison(_) => None,
 	}
 }
+
+/// Verification hook: the label scoping pass on its own.
+#[cfg(feature = "verif")]
+pub fn verif_label_analyze(program: Vec<Declaration>) -> Vec<Declaration>
+{
+	label_references::analyze(program)
+}
